@@ -47,7 +47,7 @@ def run(ck, prog, tier, load):
     if adt is None:
         raise AnchorLost("type %s not found" % HRI)
     fields = [f["n"] for f in adt["variants"][0]["fields"]]
-    ck.anchor("C11-a", len(fields), 8, "fields of HttpRequestInner")
+    ck.anchor("C11-a", len(fields), 4, "fields of HttpRequestInner")
     call = prog.one(r"^<actix_web::app_service::AppInitService<T, B> as actix_service::Service<actix_http::requests::request::Request>>::call$")
     drop = prog.one(r"^<actix_web::request::HttpRequest as core::ops::drop::Drop>::drop$")
 
@@ -157,7 +157,7 @@ def run(ck, prog, tier, load):
     if adt2 is None:
         raise AnchorLost("type %s not found" % RH)
     f2 = [f["n"] for f in adt2["variants"][0]["fields"]]
-    ck.anchor("C11-e", len(f2), 6, "fields of RequestHead")
+    ck.anchor("C11-e", len(f2), 3, "fields of RequestHead")
     clear = prog.one(r"^<actix_http::requests::head::RequestHead as actix_http::message::Head>::clear$")
     gm = prog.one(r"^actix_http::message::MessagePool::get_message$")
     # pooled branch calls clear
